@@ -1855,10 +1855,11 @@ Proof.
   rewrite !Z.eqb_refl. destruct (Z.eqb_spec s' s), (Z.eqb_spec d' d); try congruence. cbn. auto.
 Qed.
 
-Lemma inv_recv_le_req m h id psm scid credits : Inv m -> Inv (fst (recv_le_req m h id psm scid credits)).
+Lemma inv_recv_le_req m h id psm scid credits okp : Inv m -> Inv (fst (recv_le_req m h id psm scid credits okp)).
 Proof.
   intros I. unfold recv_le_req.
   destruct (srv_get psm (m_lesrv m)); [|auto].
+  destruct (negb okp); [auto|].
   destruct (memz scid (tkeys h (m_le m))) eqn:Em; [auto|].
   destruct (find_free_le (tkeys h (m_chs m))) as [local|] eqn:Ef; [|auto]. cbn [fst].
   apply inv_accept_list; auto.
@@ -1887,12 +1888,13 @@ Proof.
   - inversion H; subst. auto.
 Qed.
 
-Lemma inv_recv_enh_req m h id psm credits scids :
-  Inv m -> frame_ok m h (FEnhReq id psm credits scids) = true ->
-  Inv (fst (recv_enh_req m h id psm credits scids)).
+Lemma inv_recv_enh_req m h id psm credits scids okp :
+  Inv m -> frame_ok m h (FEnhReq id psm credits scids okp) = true ->
+  Inv (fst (recv_enh_req m h id psm credits scids okp)).
 Proof.
   intros I Hok. cbn in Hok. apply nodupz_NoDup in Hok. unfold recv_enh_req.
   destruct (srv_get psm (m_lesrv m)); [|auto].
+  destruct (negb okp); [auto|].
   destruct (any_mem scids (tkeys h (m_le m))) eqn:Em; [auto|].
   destruct (find_free_le_n (tkeys h (m_chs m)) (length scids)) as [|l0 locals] eqn:Ef; [auto|]. cbn [fst].
   apply inv_accept_list; auto.
@@ -2616,7 +2618,6 @@ Proof.
     + autorewrite with acc. change (le_reg (set_dw c None)) with (le_reg c). destruct (le_reg c); reflexivity.
     + change (le_reg (set_dw c None)) with (le_reg c). congruence.
     + autorewrite with acc. reflexivity.
-    + intros E. destruct (c_kind c); rewrite E in Hs; discriminate.
     + autorewrite with acc. reflexivity.
     + intros w0. autorewrite with accw. rewrite wget_wres, Hcw, Hdw. cbn. rewrite andb_true_r, Z.eqb_sym. reflexivity.
 Qed.
@@ -2860,7 +2861,7 @@ Theorem reopen_le_request m h psm credits : reachable m ->
   Z.of_nat (length (tkeys h (m_chs m))) < le_capacity ->
   tget h (nid m h) (m_reqs m) = None ->
   exists scid,
-    snd (step m (EOpen h K_LE psm 1 0 credits)) = [FLeReq (nid m h) psm scid credits] /\
+    snd (step m (EOpen h K_LE psm 1 0 credits)) = [FLeReq (nid m h) psm scid credits true] /\
     le_cid_lo <= scid <= le_cid_hi /\ tget h scid (m_chs m) = None /\
     let m1 := fst (step m (EOpen h K_LE psm 1 0 credits)) in
     wout m1 (wuid m) = O_PENDING /\ In (h, scid, huid m) (m_chs m1) /\
@@ -2933,13 +2934,13 @@ Theorem reopen_le_accept m h id psm scid credits srv : reachable m ->
   tget h scid (m_le m) = None ->
   Z.of_nat (length (tkeys h (m_chs m))) < le_capacity ->
   exists local,
-    snd (step m (ERecv h (FLeReq id psm scid credits))) = [FLeRsp id local srv R_OK] /\
+    snd (step m (ERecv h (FLeReq id psm scid credits true))) = [FLeRsp id local srv R_OK] /\
     le_cid_lo <= local <= le_cid_hi /\ tget h local (m_chs m) = None /\
-    let m1 := fst (step m (ERecv h (FLeReq id psm scid credits))) in
+    let m1 := fst (step m (ERecv h (FLeReq id psm scid credits true))) in
     In (h, local, huid m) (m_chs m1) /\ In (h, scid, huid m) (m_le m1).
 Proof.
   intros R Hsrv Hle Hcap. destruct (find_free_le_some _ Hcap) as [local Hs].
-  exists local. cbn [step recv]. unfold recv_le_req. rewrite Hsrv.
+  exists local. cbn [step recv]. unfold recv_le_req. rewrite Hsrv. cbn [negb].
   assert (Hm : memz scid (tkeys h (m_le m)) = false).
   { apply memz_false. intros Hi. apply tkeys_tget in Hi. congruence. }
   rewrite Hm, Hs. cbn [fst snd new_le_chans].
@@ -3145,6 +3146,7 @@ Proof.
   intros I Hu Hn. unfold abort_chan. rewrite Hu.
   destruct (c_kind c).
   - destruct (match c_st c with SConnected | SDisconnecting => true | _ => false end);
+      destruct (wpending m (c_cw c));
       apply (sc_one b (c_conn c) m _ u c); auto; try sc_wait I Hu; try sc_tab; try sc_self Hu.
   - destruct (match c_st c with SOpen | SWaitDisconnect | SOrphan => true | _ => false end);
       apply (sc_one b (c_conn c) m _ u c); auto; try sc_wait I Hu; try sc_tab; try sc_self Hu.
@@ -3191,6 +3193,7 @@ Proof.
   destruct (tget h dcid (m_chs m)) as [u|] eqn:Et; [|apply sc_refl].
   destruct (hget m u) as [c|] eqn:Hu; [|apply sc_refl].
   destruct (chs_self m u c h dcid I Hu Et) as [-> ->].
+  destruct (negb _); [apply sc_refl|].
   destruct (c_kind c); cbn [fst].
   - apply (sc_one b (c_conn c) m _ u c); auto; try sc_wait I Hu; try sc_tab; try sc_self Hu.
   - destruct (wpending m (c_cw c)); unfold cl_connect_failed;
@@ -3206,7 +3209,7 @@ Proof.
   destruct (c_kind c).
   - destruct (c_st c); try apply sc_refl. destruct (negb _); [apply sc_refl|]. cbn [fst].
     apply (sc_one b (c_conn c) m _ u c); auto; try sc_wait I Hu; try sc_tab; try sc_self Hu.
-  - destruct (negb _); [apply sc_refl|]. cbn [fst].
+  - destruct (c_st c); try apply sc_refl. destruct (negb _); [apply sc_refl|]. cbn [fst].
     apply (sc_one b (c_conn c) m _ u c); auto; try sc_wait I Hu; try sc_tab; try sc_self Hu.
 Qed.
 
@@ -3351,16 +3354,18 @@ Proof.
   destruct regle; apply sc_intro; try sc_tab; try sc_heap_new; try sc_w_new.
 Qed.
 
-Lemma sc_recv_le_req b m h id psm scid credits : b <> h -> same_conn b m (fst (recv_le_req m h id psm scid credits)).
+Lemma sc_recv_le_req b m h id psm scid credits okp : b <> h -> same_conn b m (fst (recv_le_req m h id psm scid credits okp)).
 Proof.
   intros Hn. unfold recv_le_req. destruct (srv_get _ _); [|apply sc_refl].
+  destruct (negb okp); [apply sc_refl|].
   destruct (memz _ _); [apply sc_refl|]. destruct (find_free_le _); cbn [fst]; [|apply sc_refl].
   now apply sc_new_le_chans.
 Qed.
 
-Lemma sc_recv_enh_req b m h id psm credits scids : b <> h -> same_conn b m (fst (recv_enh_req m h id psm credits scids)).
+Lemma sc_recv_enh_req b m h id psm credits scids okp : b <> h -> same_conn b m (fst (recv_enh_req m h id psm credits scids okp)).
 Proof.
   intros Hn. unfold recv_enh_req. destruct (srv_get _ _); [|apply sc_refl].
+  destruct (negb okp); [apply sc_refl|].
   destruct (any_mem _ _); [apply sc_refl|]. destruct (find_free_le_n _ _); cbn [fst]; [apply sc_refl|].
   now apply sc_new_le_chans.
 Qed.
@@ -3424,26 +3429,57 @@ Proof.
       rewrite andb_false_r. apply F. now right.
 Qed.
 
+Lemma sc_enh_finish b m h id w us dcids ok credits o : b <> h ->
+  Inv m -> tget h id (m_pend m) = Some (w, us) ->
+  (ok = true -> length dcids = length us /\ NoDup dcids /\ forall d, In d dcids -> tget h d (m_le m) = None) ->
+  same_conn b m (enh_finish m h id w us dcids ok credits o).
+Proof.
+  intros Hn I Hp Hc. unfold enh_finish.
+  pose proof (sc_enh_each b h id ok credits us m dcids w Hn I Hp Hc) as S1.
+  destruct (inv_enh_each h id ok credits us m dcids w I Hp Hc) as [I1 P1].
+  eapply sc_trans; [exact S1|].
+  destruct (pend_ok _ I1 _ _ _ _ P1) as ([x (Hx & _ & _ & Hxc & _)] & _).
+  apply sc_intro; try sc_tab; try (intros; left; autorewrite with acc; reflexivity).
+  intros w0. autorewrite with acc. destruct (Z.eqb_spec w0 w); [|left; reflexivity]. subst.
+  right. rewrite Hx. cbn. split; intros x0 H0; injection H0 as <-; rewrite ?w_conn_wres1; congruence.
+Qed.
+
 Lemma sc_recv_enh_rsp b m h id credits result dcids :
   Inv m -> frame_ok m h (FEnhRsp id credits result dcids) = true -> b <> h ->
   same_conn b m (fst (recv_enh_rsp m h id credits result dcids)).
 Proof.
   intros I Hok Hn. unfold recv_enh_rsp. cbn in Hok.
   destruct (tget h id (m_pend m)) as [[w us]|] eqn:Hp; [|apply sc_refl]. cbn [fst].
-  assert (Hc : Z.eqb result R_OK = true -> length dcids = length us /\ NoDup dcids /\
-                                            forall d, In d dcids -> tget h d (m_le m) = None).
-  { intros E. rewrite E in Hok. cbn in Hok. apply andb_true_iff in Hok. destruct Hok as [Hok H3].
-    apply andb_true_iff in Hok. destruct Hok as [H1 H2].
-    apply Nat.eqb_eq in H1. apply nodupz_NoDup in H2. apply negb_true_iff in H3. rewrite any_mem_false in H3.
-    repeat split; auto. intros d Hd. destruct (tget h d (m_le m)) eqn:Eg; auto.
-    exfalso. apply (H3 d Hd). apply tkeys_tget. congruence. }
-  pose proof (sc_enh_each b h id (Z.eqb result R_OK) credits us m dcids w Hn I Hp Hc) as S1.
-  destruct (inv_enh_each h id (Z.eqb result R_OK) credits us m dcids w I Hp Hc) as [I1 P1].
-  eapply sc_trans; [exact S1|].
-  destruct (pend_ok _ I1 _ _ _ _ P1) as ([x (Hx & _ & _ & Hxc & _)] & _).
-  apply sc_intro; try sc_tab; try (intros; left; autorewrite with acc; reflexivity).
-  intros w0. autorewrite with acc. destruct (Z.eqb_spec w0 w); [|left; reflexivity]. subst.
-  right. rewrite Hx. cbn. split; intros x0 H0; injection H0 as <-; rewrite ?w_conn_wres1; congruence.
+  apply sc_enh_finish; auto.
+  intros E. rewrite E in Hok. cbn in Hok. apply andb_true_iff in Hok. destruct Hok as [Hok H3].
+  apply andb_true_iff in Hok. destruct Hok as [H1 H2].
+  apply Nat.eqb_eq in H1. apply nodupz_NoDup in H2. apply negb_true_iff in H3. rewrite any_mem_false in H3.
+  repeat split; auto. intros d Hd. destruct (tget h d (m_le m)) eqn:Eg; auto.
+  exfalso. apply (H3 d Hd). apply tkeys_tget. congruence.
+Qed.
+
+(* ---------------------------------------------------------------- cancellation by the caller *)
+Lemma sc_cancel b m w x : Inv m -> wget m w = Some x -> b <> w_conn x -> same_conn b m (do_cancel m w).
+Proof.
+  intros I Hx Hn. unfold do_cancel. rewrite wget_m_eq, Hx.
+  destruct (Z.eqb_spec (w_out x) O_PENDING) as [Hp|Hp]; cbn [negb]; [|apply sc_refl].
+  pose proof (w_own m I w x Hx Hp) as O.
+  assert (Hwx : forall w0, wget (wres m w O_CANCELLED) w0 = wget m w0 \/
+            ((forall x0, wget m w0 = Some x0 -> w_conn x0 = w_conn x) /\
+             (forall x0, wget (wres m w O_CANCELLED) w0 = Some x0 -> w_conn x0 = w_conn x))).
+  { intros w0. rewrite wget_wres. destruct (Z.eqb_spec w0 w); [|left; reflexivity]. subst.
+    right. rewrite Hx. cbn. split; intros x0 H0; injection H0 as <-; rewrite ?w_conn_wres1; reflexivity. }
+  destruct (w_kind x) eqn:Ek.
+  - destruct O as [c [Hu Hcw]]. rewrite Hu, Hcw. cbn [is_uid]. rewrite Z.eqb_refl.
+    destruct (ch_cw m I _ c w Hu Hcw) as (_ & _ & [x0 (A & _ & _ & B & _)]). rewrite Hx in A. inversion A; subst x0.
+    destruct (c_kind c);
+      apply (sc_one b (c_conn c) m _ (w_ref x) c); auto; try congruence; try sc_tab; try sc_self Hu;
+      try (intros w0; autorewrite with accw; rewrite <- B; apply Hwx).
+  - destruct O as [us Hus]. rewrite Hus, Z.eqb_refl. apply sc_enh_finish; auto. discriminate.
+  - destruct O as [c [Hu Hdw]]. rewrite Hu, Hdw. cbn [is_uid]. rewrite Z.eqb_refl.
+    destruct (ch_dw m I _ c w Hu Hdw) as (_ & _ & [x0 (A & _ & _ & B & _)]). rewrite Hx in A. inversion A; subst x0.
+    apply (sc_one b (c_conn c) m _ (w_ref x) c); auto; try congruence; try sc_tab; try sc_self Hu;
+      try (intros w0; autorewrite with accw; rewrite <- B; apply Hwx).
 Qed.
 
 (* ---------------------------------------------------------------- link loss *)
@@ -3490,17 +3526,19 @@ Definition ev_conn (m : mgr) (e : event) : option Z :=
   | ERecv h _ => Some h
   | EDown h => Some h
   | EClose u | EAbort u | EWrite u _ | EGrant u _ => option_map c_conn (hget m u)
+  | ECancel w => option_map w_conn (wget m w)
   end.
 
 Theorem links_independent m e a b : reachable m -> ev_ok m e = true ->
   ev_conn m e = Some a -> b <> a -> same_conn b m (fst (step m e)).
 Proof.
   intros R Hok Ha Hn. pose proof (reachable_Inv m R) as I.
-  destruct e as [h kind psm n mode credits|u|u|u k|u n|h f|h]; cbn [step ev_conn] in *.
+  destruct e as [h kind psm n mode credits|u|u|w|u k|u n|h f|h]; cbn [step ev_conn] in *.
   - injection Ha as ->. destruct (Z.eqb kind K_LE); [now apply sc_open_le|].
     destruct (Z.eqb kind K_ENH); [now apply sc_open_enh|now apply sc_open_cl].
   - destruct (hget m u) as [c|] eqn:Hu; [|discriminate]. injection Ha as <-. eapply sc_close; eauto.
   - destruct (hget m u) as [c|] eqn:Hu; [|discriminate]. injection Ha as <-. eapply sc_abort; eauto.
+  - destruct (wget m w) as [x|] eqn:Hx; [|discriminate]. injection Ha as <-. eapply sc_cancel; eauto.
   - destruct (hget m u) as [c|] eqn:Hu; [|discriminate]. injection Ha as <-. eapply sc_write; eauto.
   - destruct (hget m u) as [c|] eqn:Hu; [|discriminate]. injection Ha as <-. eapply sc_grant; eauto.
   - injection Ha as ->. destruct f; cbn [recv].
@@ -3523,6 +3561,8 @@ Qed.
 (* an event that addresses no channel object changes nothing *)
 Lemma ev_conn_none m e : ev_conn m e = None -> step m e = (m, []).
 Proof.
-  destruct e; cbn; try discriminate; destruct (hget m _) eqn:E; try discriminate; intros _;
-    unfold do_close, abort_chan, do_write, do_grant; rewrite E; reflexivity.
+  destruct e; cbn; try discriminate;
+    try (destruct (hget m _) eqn:E; try discriminate; intros _;
+         unfold do_close, abort_chan, do_write, do_grant; rewrite E; reflexivity).
+  destruct (wget m w) eqn:E; try discriminate. intros _. unfold do_cancel. rewrite wget_m_eq, E. reflexivity.
 Qed.
